@@ -76,7 +76,7 @@ class BlobManager:
             if not self.blob_dir:
                 return set()
             return {
-                item.name for item in os.scandir(self.blob_dir) if is_valid_blobhash(item.name)
+                item.name for item in os.scandir(self.blob_dir) if is_valid_blobhash(item.name) and item.is_file()
             }
 
         in_blobfiles_dir = await self.loop.run_in_executor(None, get_files_in_blob_dir)
